@@ -70,7 +70,15 @@ class Tok:
 
 
 class NS(dict):
-    """an object with constant attributes (e.g. `self` with the attributes a method reads)"""
+    """an object with constant attributes (e.g. `self` with the attributes a method reads); attributes listed in `frozen` keep
+    their given value whatever the interpreted code stores into them"""
+    frozen = ()
+
+
+class Native:
+    """a callable attribute with a given constant behaviour (e.g. payload.flatten() -> a list of field tokens)"""
+    def __init__(self, fn):
+        self.fn = fn
 
 
 class Gen(list):
@@ -78,7 +86,8 @@ class Gen(list):
 
 
 class Interp:
-    def __init__(self, env=None, objects=False, exact=False):
+    def __init__(self, env=None, objects=False, exact=False, funcs=None):
+        self.funcs = funcs or {}        # name -> FunctionDef of module-level functions that may be interpreted when called
         self.env = dict(env or {})
         self.steps = 0
         self.objects = objects
@@ -281,7 +290,8 @@ class Interp:
                 o = Obj(cn, tuple(args), {k.arg: self.ev(k.value) for k in e.keywords if k.arg}, len(self.created), getattr(e, "lineno", 0))
                 self.created.append(o)
                 return o
-        if e.keywords and not (isinstance(e.func, ast.Name) and e.func.id in ("sorted", "dict", "max", "min")):
+        if e.keywords and not (isinstance(e.func, ast.Name) and (e.func.id in ("sorted", "dict", "max", "min") or e.func.id in MODELS or
+                                                                 e.func.id in self.funcs)):
             return U
         args = []
         for a in e.args:
@@ -300,6 +310,27 @@ class Interp:
             fn = f.id
             if fn in self.env:
                 return U
+            if fn in self.funcs and self.exact:
+                fdef = self.funcs[fn]
+                names = [x.arg for x in fdef.args.posonlyargs + fdef.args.args]
+                bound = dict(zip(names, args))
+                for k in e.keywords:
+                    v = self.ev(k.value)
+                    if v is U or k.arg is None:
+                        return U
+                    bound[k.arg] = v
+                r = call(fdef, bound, funcs=self.funcs, budget=self)
+                if r[0] == "raise":
+                    raise Unknowable(f"{fn}() raises")
+                return r[1]
+            if fn in MODELS:
+                kw = {}
+                for k in e.keywords:
+                    v = self.ev(k.value)
+                    if v is U or k.arg is None:
+                        return U
+                    kw[k.arg] = v
+                return MODELS[fn](*args, **kw)
             if fn == "dict" and e.keywords and not args:
                 d = {}
                 for k in e.keywords:
@@ -334,9 +365,12 @@ class Interp:
             if recv is U:
                 return U
             meth = f.attr
+            if isinstance(recv, NS):
+                h = recv.get(meth, U)
+                return h.fn(*args) if isinstance(h, Native) else U
             pure = {dict: ("items", "keys", "values", "get", "copy"), list: ("index", "count", "copy"), tuple: ("index", "count"),
                     set: ("union", "intersection", "difference", "issubset", "issuperset", "copy"),
-                    str: ("format", "upper", "lower", "replace", "split", "join", "startswith", "endswith", "strip", "zfill")}
+                    int: ("bit_length",), str: ("format", "upper", "lower", "replace", "split", "join", "startswith", "endswith", "strip", "zfill")}
             for ty, ms in pure.items():
                 if isinstance(recv, ty) and meth in ms:
                     r = getattr(recv, meth)(*args)
@@ -459,6 +493,22 @@ class Interp:
                         self._poison([st])
                         return None
                 continue
+            if isinstance(st, ast.While) and self.exact and not st.orelse:
+                while True:
+                    self.steps += 1
+                    if self.steps > _LIMIT:
+                        raise _Stop()
+                    t = self.ev(st.test)
+                    if t is UNKNOWN:
+                        raise Unknowable(f"while test at L{st.lineno}")
+                    if not t:
+                        break
+                    r = self.run(st.body)
+                    if r == "break":
+                        break
+                    if r == "exit":
+                        return "exit"
+                continue
             # anything else (while, with, try, match, delete ...): whatever it assigns is unknown
             if self.exact:
                 raise Unknowable(f"statement at L{st.lineno}")
@@ -481,7 +531,14 @@ class Interp:
                     cont[k] = v
                 except Exception:
                     self.env[t.value.id] = UNKNOWN
-        elif isinstance(t, (ast.Subscript, ast.Attribute)):
+        elif isinstance(t, ast.Attribute):
+            obj = self.ev(t.value)
+            if isinstance(obj, NS):
+                if t.attr not in obj.frozen:
+                    obj[t.attr] = v
+            else:
+                self._poison([t])
+        elif isinstance(t, ast.Subscript):
             self._poison([t])
 
 
@@ -505,14 +562,39 @@ def module_consts(tree):
     return {k: v for k, v in it.env.items() if v is not UNKNOWN}
 
 
-def call(fn, args, consts=None):
+def _log2_int(n, need_pow2=True):
+    """Migen's log2_int (embedded model): ceil(log2(n)), refusing non-powers of two unless told otherwise"""
+    if n == 0:
+        return 0
+    r = (n - 1).bit_length()
+    if need_pow2 and (1 << r) != n:
+        raise ValueError("not a power of 2")
+    return r
+
+
+def _bits_for(n, require_sign_bit=False):
+    """Migen's bits_for (embedded model)"""
+    if n > 0:
+        r = _log2_int(n + 1, False)
+    else:
+        require_sign_bit = True
+        r = _log2_int(-n, False)
+    return r + 1 if require_sign_bit else r
+
+
+MODELS = {"log2_int": _log2_int, "bits_for": _bits_for}
+
+
+def call(fn, args, consts=None, funcs=None, budget=None):
     """Interpret function node `fn` exactly on constant arguments {param: value}: ("return", value) | ("raise", None); raises
     Unknowable when the outcome depends on something that is not a compile-time constant."""
     env = dict(consts or {})
     a = fn.args
     names = [x.arg for x in a.posonlyargs + a.args]
     defaults = dict(zip(names[len(names) - len(a.defaults):], a.defaults))
-    it = Interp(env, exact=True)
+    it = Interp(env, exact=True, funcs=funcs)
+    if budget is not None:
+        it.steps = budget.steps
     for n in names:
         if n in args:
             it.env[n] = args[n]
@@ -524,4 +606,6 @@ def call(fn, args, consts=None):
         it.run(fn.body)
     except (_Stop, RecursionError):
         raise Unknowable("interpreter limit")
+    if budget is not None:
+        budget.steps = it.steps
     return it.result if it.result is not None else ("return", None)
